@@ -231,6 +231,9 @@ var tickChoices = []time.Duration{
 // tick is enabled (quiescent system).
 func (s *Sim) Step() (progress bool) {
 	synctest.Wait()
+	if len(s.zombies) > 0 {
+		s.runZombies()
+	}
 	s.noteTime()
 	for _, h := range s.stepHooks {
 		h()
